@@ -46,7 +46,23 @@ func TestVerifC08Window(t *testing.T) {
 		for i := range order {
 			order[i] = i
 		}
-		mode := []string{"newest-first", "reverse", "shuffled", "late-block-first", "in-order"}[ci%5]
+		mode := []string{"newest-first", "reverse", "shuffled", "late-block-first", "in-order", "far-ahead-then-batch-ending-unopenable"}[ci%6]
+		batchFrom := -1 // from this arrival on everything is handed over at once
+		if mode == "far-ahead-then-batch-ending-unopenable" {
+			// the newest message first (beyond the precomputed keys: parked with the key known), then, in ONE
+			// batch, enough older ones to bring it within reach, the batch ending with an entry that never
+			// opens (sealed before the announcement); nothing else arrives
+			n = 105 + rng.Intn(30)
+			ann = 1 + rng.Intn(3)
+			w = c08build(t, c08scenario{msgs: []int{n}, announce: []int{ann}})
+			k := n - 1 - 100 - ann + 1 + rng.Intn(5)
+			order = []int{n - 1}
+			for i := ann; i <= ann+k && i < n-1; i++ {
+				order = append(order, i)
+			}
+			order = append(order, 0)
+			batchFrom = 1
+		}
 		switch mode {
 		case "newest-first":
 			k := 1 + rng.Intn(3)
@@ -67,7 +83,14 @@ func TestVerifC08Window(t *testing.T) {
 		paced := rng.Intn(3) != 0 // each entry handled before the next arrives / all at once
 		registerAt := 0           // the chain key is registered before this arrival
 		if rng.Intn(3) == 0 {
-			registerAt = rng.Intn(n + 1)
+			registerAt = rng.Intn(len(order) + 1)
+		}
+		if batchFrom >= 0 {
+			paced, registerAt = true, 0
+		}
+		arrivedIdx := map[int]bool{}
+		for _, idx := range order {
+			arrivedIdx[idx] = true
 		}
 
 		ctx, cancel := context.WithCancel(context.Background())
@@ -165,19 +188,19 @@ func TestVerifC08Window(t *testing.T) {
 				t.Fatal(err)
 			}
 			arrived++
-			if paced && !quiet(10*time.Second) {
+			if paced && (batchFrom < 0 || i < batchFrom) && !quiet(10*time.Second) {
 				mu.Lock()
 				note = fmt.Sprintf("10 s after arrival %d (message %d) %d of the %d arrived entries are neither delivered nor parked (%d delivered, %d parked): lost, or the pipeline never comes to rest", i, idx, arrived-total-parked(), arrived, total, parked())
 				mu.Unlock()
 				break
 			}
 		}
-		if registerAt >= n {
+		if registerAt >= len(order) {
 			register()
 		}
 		expect := 0
 		for _, m := range w.msgs {
-			if w.decryptable(m) {
+			if arrivedIdx[m.index] && w.decryptable(m) {
 				expect++
 			}
 		}
@@ -196,10 +219,13 @@ func TestVerifC08Window(t *testing.T) {
 			quiet(2 * time.Second)
 			mu.Lock()
 			for _, m := range w.msgs {
+				if !arrivedIdx[m.index] {
+					continue
+				}
 				switch {
 				case w.decryptable(m) && delivered[m.index] == 0:
 					if note == "" {
-						note = fmt.Sprintf("message %d (counter %d, chain key opens from %d) was never delivered: %d of %d decryptable messages delivered, %d still parked", m.index, m.counter, w.first[0], total, expect, 0)
+						note = fmt.Sprintf("message %d (counter %d, chain key opens from %d) was never delivered: %d of %d decryptable messages delivered, %d still parked", m.index, m.counter, w.first[0], total, expect, parked())
 					}
 				case delivered[m.index] > 1:
 					note = fmt.Sprintf("message %d delivered %d times for one arrival", m.index, delivered[m.index])
